@@ -504,9 +504,12 @@ class Run:
             return '~'
         return '%d' % self.idx_of[name] if name in self.idx_of else '?' + name
 
-    def show_msg(self, m, sender_override=None):
+    def show_msg(self, m, sender_override=None, sent=False):
         # a body is only on the wire under a non-empty signature (`if self.signature:` in _marshal)
         body = m['body'] if (m['body'] is not None and m['sig']) else []
+        if sent and body:
+            # the message object of a sender still holds the values as passed; the wire holds their encoding
+            body = codec_norm(m['sig'], body)
         vals = '[' + ','.join(tok(v) for v in body) + ']'
         sender = self.who(m['sender']) if sender_override is None else '%d' % sender_override
         if m['t'] == 'call':
@@ -578,7 +581,7 @@ class Run:
                                                     hs(rec['iface']), hs(rec['member']),
                                                     ','.join(tok(a) for a in rec['args'])))
         out += ['exec(%d)' % g[2] for g in group if g[0] == 'exec']
-        out += ['sent(%s)' % self.show_msg(g[2]) for g in group if g[0] == 'send' and g[1] == 'cli:%d' % c]
+        out += ['sent(%s)' % self.show_msg(g[2], sent=True) for g in group if g[0] == 'send' and g[1] == 'cli:%d' % c]
         for g in group:
             if g[0] != 'done':
                 continue
